@@ -282,7 +282,14 @@ func ReplayResub(idx int, c *RCase, mode string, out *[]Mismatch) {
 		add("hang", "Subscribe did not return within 10s although every attempt ended")
 		return
 	}
-	a.wg.Wait()
+	played := make(chan struct{})
+	go func() { a.wg.Wait(); close(played) }()
+	select {
+	case <-played:
+	case <-time.After(10 * time.Second):
+		add("hang", "the producer of an attempt is still blocked inside the pipeline 10s after Subscribe returned")
+		return
+	}
 	if mode != "sync" && sub != nil {
 		// asynchronous attempts: the operators wait inside Subscribe, so everything is over when it returns
 	}
